@@ -147,7 +147,15 @@ def run_case(case):
         tree, err = harness.guard(
             harness.open_tree, prod.url, records_per_chunk=case["rpc"], use_cache=False, **opts
         )
+        cached = None
         if opts:
+            # the cache just produced must describe THIS file: pixels read through it are judged too
+            cached, cerr = harness.guard(harness.open_tree, prod.url, records_per_chunk=case["rpc"], use_cache=True)
+            if cerr is not None and err is None:
+                out.append(harness.disc("exception", "open_alos2 through the cache it just wrote", "a tree", harness.exc_text(cerr)))
+                cached = None
+        # in an in-place pair the first product's cache stays in place for the second one
+        if (opts and harness.PAIR_INDEX != 0) or harness.PAIR_INDEX == 1:
             common.drop_user_cache(prod.url, info["names"]["sar_imagery"])
         if err is not None:
             return [harness.disc("exception", "open_alos2", "a tree", harness.exc_text(err))]
@@ -176,6 +184,13 @@ def run_case(case):
             exp = expected_words(iinfo)
             obs = observed_words(values, iinfo["type_code"])
             out.extend(check_window(case, var, iinfo, exp, where))
+            if cached is not None and case["fs"] in ("local", "file"):
+                # (non-local products: open finding D5 makes the cached pixels unloadable)
+                cvals, cerr = harness.guard(lambda g=gname: np.asarray(cached[f"imagery/{g}"]["data"].values))
+                if cerr is not None:
+                    out.append(harness.disc("exception", where + " through the cache just written", "values", harness.exc_text(cerr)))
+                elif cvals.shape != shape or not np.array_equal(exp, observed_words(cvals, iinfo["type_code"])):
+                    out.append(harness.disc("pixel-bits", where + " through the cache just written", "the samples of the file", "other samples / shape", shape=list(cvals.shape)))
             if not np.array_equal(exp, obs):
                 bad = np.argwhere(exp != obs)
                 r, c = (int(x) for x in bad[0])
